@@ -139,6 +139,12 @@ pub fn family(name: &str) -> Family {
             binary: vec!["then", "or", "foldlw", "foldrw", "then"],
             alphabet: vec!["a", "b"],
         },
+        "seek" => Family {
+            leaves: vec![j("a"), jj("a", "b"), json!(["any"]), j("b")],
+            unary: vec!["ornot", "rewind", "tospan", "rep0", "rep1", "run0"],
+            binary: vec!["then", "andis", "or", "then", "or"],
+            alphabet: vec!["a", "b"],
+        },
         "rcv" => Family {
             leaves: vec![j("a"), j("b"), jj("a", "b"), json!(["any"])],
             unary: vec!["ornot", "rep0", "rep12", "validate", "recover", "recover", "map"],
@@ -310,7 +316,10 @@ pub fn gen(r: &mut Rng, f: &Family, budget: usize) -> J {
 }
 
 pub fn gen_input(r: &mut Rng, f: &Family, max_len: usize, tree: bool) -> Vec<&'static str> {
-    let n = r.below(max_len + 1);
+    gen_input_min(r, f, 0, max_len, tree)
+}
+pub fn gen_input_min(r: &mut Rng, f: &Family, min_len: usize, max_len: usize, tree: bool) -> Vec<&'static str> {
+    let n = min_len + r.below(max_len + 1 - min_len.min(max_len));
     if tree {
         // token trees: a random balanced bracket sequence
         let mut v = vec![];
